@@ -27,6 +27,13 @@ pub struct Case {
 
 pub struct C10;
 
+struct ResetCap;
+impl Drop for ResetCap {
+    fn drop(&mut self) {
+        crate::sink::set_read_cap(0);
+    }
+}
+
 fn params() -> BoxedStrategy<EncParams> {
     (
         (any::<bool>(), any::<bool>(), 1u16..=4, select(vec![2u32, 3, 4, 16, 256]), 2u32..=8),
@@ -268,6 +275,10 @@ impl Prop for C10 {
         obs.label(&format!("version={}", p.version));
         obs.label_if(p.version >= 2 && p.no_summary, "v2+-without-total-summary");
         obs.label_if(p.ragged, "ragged-rtree-requested");
+        let cap = match (p.rtree_block + p.chrom_block + p.items_per_slot + p.pad as u32) % 10 { 3 => 5usize, 7 => 64, _ => 0 };
+        crate::sink::set_read_cap(cap);
+        obs.label_if(cap > 0, "source-with-short-reads");
+        let _reset = ResetCap;
         obs.label(&format!("placement={:?}", p.placement).split('(').next().unwrap().to_string());
         obs.label_if(p.nonleaf_last, "main-index-last-inner-node-last");
         obs.label_if(p.count_u32, "count-4-bytes");
